@@ -68,6 +68,16 @@ RdmClauses(ln, rho) ==
                                                  /\ (ln.has_nf => ln.nf = <<den, 0>>)>>,
      <<"NOTE:AvailabilityDrift", WellFormed(ln) => (Returned(ln) <=> TableSays(ln))>> >>
 
+\* one call with several terms, summed by the route: the sum of the numerators
+ExpectSumClauses(ln) ==
+  LET okT(t) == SitesOK(dims, t.sites) /\ Len(t.G) = SiteSize(dims, t.sites) * SiteSize(dims, t.sites)
+      ok == Len(psi) = Size(dims) /\ \A k \in DOMAIN ln.terms : okT(ln.terms[k])
+      num(t) == ExpNum(RDM(psi, dims, t.sites), Mat(SiteSize(dims, t.sites), t.G))
+  IN
+  << <<"RecordWellFormed", ok>>,
+     <<"OnGrid", Returned(ln) => ln.ongrid>>,
+     <<"ExpectationSumExact", (ok /\ Judged(ln)) => ln.val = SumG(LAMBDA k : num(ln.terms[k]), 1, Len(ln.terms))>> >>
+
 OpTraceClauses(ln, rho) ==
   << <<"RecordWellFormed", WellFormed(ln)>>,
      <<"OnGrid", Returned(ln) => ln.ongrid>>,
@@ -101,6 +111,7 @@ HasSites(ln) == ln.ev \in {"expect", "rdm", "optrace", "optranspose"}
 Clauses(ln, rho) ==
   CASE ln.ev = "new"         -> NewClauses(ln)
     [] ln.ev = "expect"      -> ExpectClauses(ln, rho)
+    [] ln.ev = "expectsum"   -> ExpectSumClauses(ln)
     [] ln.ev = "rdm"         -> RdmClauses(ln, rho)
     [] ln.ev = "optrace"     -> OpTraceClauses(ln, rho)
     [] ln.ev = "optranspose" -> OpTransposeClauses(ln, rho)
